@@ -7,10 +7,46 @@
 Optional: VERIF_EXTRA_OVERLAY=<json file with {"Replace": {...}}> is merged on top (used by
 selftest to apply a mutant without touching /repo).  /repo itself is never written.
 """
-import json, os, sys
+import json, os, re, sys
 
 VERIF = os.path.dirname(os.path.dirname(os.path.abspath(__file__)))
 REPO = os.environ.get("VERIF_REPO", "/repo")
+
+
+# Packages holding replicated state: compiled against internal/verifmc/vtime instead of "time"
+# (only the import line of a copy is rewritten, at build time, from the current working tree or
+# from the mutant overlay), so a replica can run with a shifted clock (C01).
+VTIME_DIRS = ["agent/consul/state", "agent/consul/fsm", "agent/structs", "internal/storage/inmem", "internal/storage/raft"]
+TIME_IMPORT = re.compile(r'^(\s*)"time"\s*$', re.M)
+
+
+def rewrite_time_imports(rep, out_path):
+    dst_root = os.path.join(os.path.dirname(out_path), "vtime-src" + ("-" + os.path.basename(out_path).replace(".json", "") if "overlay-" in out_path else ""))
+    for d in VTIME_DIRS:
+        full = os.path.join(REPO, d)
+        names = set(f for f in os.listdir(full) if f.endswith(".go") and not f.endswith("_test.go"))
+        for target in list(rep):
+            if os.path.dirname(target) == full and target.endswith(".go") and not target.endswith("_test.go"):
+                names.add(os.path.basename(target))
+        for f in sorted(names):
+            target = os.path.join(full, f)
+            src = rep.get(target, target)
+            try:
+                text = open(src).read()
+            except FileNotFoundError:
+                continue
+            new, n = TIME_IMPORT.subn(r'\1time "github.com/hashicorp/consul/internal/verifmc/vtime"', text)
+            if n == 0:
+                continue
+            dst = os.path.join(dst_root, d, f)
+            os.makedirs(os.path.dirname(dst), exist_ok=True)
+            old = None
+            if os.path.exists(dst):
+                old = open(dst).read()
+            if old != new:
+                with open(dst, "w") as fh:
+                    fh.write(new)
+            rep[target] = dst
 
 
 def build(out_path):
@@ -35,6 +71,7 @@ def build(out_path):
     if extra:
         with open(extra) as fh:
             rep.update(json.load(fh).get("Replace", {}))
+    rewrite_time_imports(rep, out_path)
     os.makedirs(os.path.dirname(out_path), exist_ok=True)
     tmp = out_path + ".tmp.%d" % os.getpid()
     with open(tmp, "w") as fh:
